@@ -86,11 +86,13 @@ static inline long myth_sleep_queue_enq(myth_sleep_queue_t * q,
   t->next = 0;
   long spin_failed = myth_spin_lock_body(q->ilock);
   myth_sleep_queue_item_t tail = q->tail;
+  MYTH_VERIF_POINT(MVP_SQ_ENQ_A);
   if (tail) {
     tail->next = t;
   } else {
     q->head = t;
   }
+  MYTH_VERIF_POINT(MVP_SQ_ENQ_B);
   q->tail = t;
   myth_spin_unlock_body(q->ilock);
   return spin_failed;		/* done */
@@ -99,9 +101,11 @@ static inline long myth_sleep_queue_enq(myth_sleep_queue_t * q,
 static inline myth_sleep_queue_item_t myth_sleep_queue_deq(myth_sleep_queue_t * q) {
   myth_spin_lock_body(q->ilock);
   myth_sleep_queue_item_t head = q->head;
+  MYTH_VERIF_POINT(MVP_SQ_DEQ_A);
   if (head) {
     myth_sleep_queue_item_t next = head->next;
     q->head = next;
+    MYTH_VERIF_POINT(MVP_SQ_DEQ_B);
     if (!next) {
       q->tail = 0;
     }
